@@ -19,7 +19,7 @@ TECH = {
  'C06': 'static analysis: write-set (effect) analysis over the CHA call graph versus the reset closure; CFG dominance of the reset guard',
  'C07': 'static analysis: effect analysis (writes to static storage and to shared classes) over the CHA call graph with cut sets',
  'C08': 'static analysis: template-argument comparison of serializer instantiations, who-may-call, HTML element table lint, bounded interpretation of the indenting serializer\'s event handlers over all event sequences (abstract output tokens), of the HTML serializer likewise, and of the text formatter on all short strings',
- 'C09': 'static analysis: pattern op-code producers versus stepPattern/getTargetData switch labels; single NodeTester rule; CFG loop-exit rule for the ancestor search; type-split rule for number-valued predicates on both sides; step-type value sets reaching the node tester; kind guards of pattern steps; interpretation of the pattern parser on bounded token sequences against a reference recognizer for the XSLT 1.0 pattern grammar',
+ 'C09': 'static analysis: pattern op-code producers versus stepPattern/getTargetData switch labels; single NodeTester rule; CFG loop-exit rule for the ancestor search; type-split rule for number-valued predicates on both sides; step-type value sets reaching the node tester; kind guards of pattern steps; interpretation of the pattern parser on bounded token sequences against a reference recognizer for the XSLT 1.0 pattern grammar; end-to-end interpretation of pattern compilation (real op-code map) and matching (stepPattern, NodeTester) on abstract trees against the definition of XSLT 1.0 5.2',
  'C10': 'static analysis: exhaustive switch evaluation of match-score constants; finite-domain interpretation of getTargetData and of the lookup-list builders on all small inputs; structural agreement of the two findTemplate branches; interpretation of the construction of the built-in rules over an object model of stylesheet elements',
  'C11': 'static analysis: sibling dispatch agreement across the six executeMore switches (labels, kernels, canonical conversions); append protocol of the string-result overloads; wrapper rule for the typed helper families; body equality modulo the sink for the 50 string / character-events overload pairs of the conversion library',
  'C12': 'static analysis: CFG must-pass-through of the order flag in axis functions; who-may-call for raw addNode; dominating-justification rule for whole-range transfers in the ordered merge; interpretation of the ordered insert (binary and linear search, predicates) on all bounded insertion sequences over two documents, and of the structural document-order comparison on all node pairs of small trees',
@@ -33,7 +33,7 @@ m = {'version': 1, 'setup_cmd': 'make -C /verif all',
      'hooks': {'guard': 'APACHE_XALAN_C_VERIF', 'enable': "none needed: the checks parse /repo with the build's own flags (compile DB from /repo/_build/build.ninja); nothing is instrumented",
                'baseline_off_cmd': 'ctest --test-dir /repo/_build -j8 --timeout 900', 'source_commits': [], 'add_only': True},
      'engines': [{'name': 'xvfacts', 'path': 'tools/xvfacts.cc', 'serves_properties': claimed, 'kind_free_text': 'libTooling fact extractor: functions, CHA call edges, writes, throws, constant tables, mini-ASTs with resolved callees'},
-                 {'name': 'xv', 'path': 'xv/', 'serves_properties': claimed, 'kind_free_text': 'Python rule engines over the extracted facts (table lint, finite-domain interpretation, CFG must-analyses, call-graph effects)'}],
+                 {'name': 'xv', 'path': 'xv/', 'serves_properties': claimed, 'kind_free_text': 'Python rule engines over the extracted facts (table lint, finite-domain and object-level interpretation of function bodies, CFG must-analyses, call-graph effects)'}],
      'checks': [], 'notes': 'Static analysis only: every check parses the current /repo working tree (clang 14 libTooling) and decides structural clauses that are necessary conditions of the property; see DESIGN.md. Exit 2 = analysis broken (anchor vanished / instance floor not met), never a pass.',
      'not_applicable': []}
 for p in props:
